@@ -493,8 +493,10 @@ def write_tu(name, cases, build, stubs=(), subdir=None):
     p = os.path.join(d, name + '.cpp')
     src = emit_tu(cases, build, stubs)
     if not (os.path.exists(p) and open(p).read() == src):
-        with open(p, 'w') as f:
+        tmp = '%s.%d.tmp' % (p, os.getpid())       # atomic: checks may run side by side on the same generated directory
+        with open(tmp, 'w') as f:
             f.write(src)
+        os.replace(tmp, p)
     return p
 
 
